@@ -31,6 +31,8 @@ func runC02(r *engine.Run) {
 	r.Rule("CLONE-complete", "see C14: CloneNode gives its copy every field of the node (a cached child count that the copy lacks makes deletes through a second handle skip every collapse: the root then depends on which handle ran the history)")
 	r.Rule("AGREE-kindtag", "the hash pre-images of the node kinds live in disjoint spaces: GetHashBytes of every kind writes a kind-distinguishing constant (a constant byte, the serialization prefix, a type code) into the hashed buffer besides the origin and encode() - without it an extension and a leaf with equal prefix/path bytes are one node and two different contents share a root")
 	r.Rule("FRESH-bytes", "see C03: the byte slices handed out by the node and value accessors (MarshalMsg, Encode, GetHashBytes, GetValueBytes) are new buffers on every return - a caller that writes into what a lookup or an encoder handed out would otherwise change a stored value behind its hash, and the root would no longer be a function of the content")
+	r.Rule("ERR-guard", "see C17: the error branch of a store or trie operation returns a non-nil error")
+	r.Rule("ERR-dropped", "see C17: the error of every store operation the trie calls is looked at (a batch lookup whose error and missing entries are ignored files the nodes it got under the wrong keys: the root then no longer follows the content)")
 	r.NotDec = append(r.NotDec, "equality with an independent implementation for every content", "full history independence (canonical restructuring is value-level)", "collision resistance of the hash")
 	agreeHash(r, "AGREE-hash")
 	orderStamp(r, "ORDER-stamp")
@@ -46,6 +48,7 @@ func runC02(r *engine.Run) {
 	freshBytes(r, "FRESH-bytes")
 	agreeKindTag(r, "AGREE-kindtag")
 	cloneComplete(r, "CLONE-complete")
+	errGuard(r, "ERR-guard", "ERR-dropped", mptFuncs(r), 15)
 }
 
 var trieNodeTypes = []string{"LeafNode", "FullNode", "ExtensionNode"}
